@@ -353,11 +353,19 @@ func mentions(ts []Tok, names []string) bool {
 
 // LetValue returns the right-hand side of a let that is valid given bound names.
 func (g *G) LetValue(bound []string) []Tok {
-	w := []int{4, 4, 1, 0, 2, 1}
+	w := []int{4, 4, 1, 0, 2, 1, 2}
 	if len(bound) > 0 {
 		w[3] = 4
 	}
 	switch g.R.Pick(w) {
+	case 6:
+		// a name from the let/parameter pool that need not be bound by an earlier let: the statement is
+		// valid exactly when a parameter (or an earlier let) of that name is in scope
+		n := g.pick(LetNames)
+		if g.R.Chance(1, 2) {
+			return toks(n)
+		}
+		return toks(n, g.pick([]string{"+", "*", "-"}), g.pick(Numbers))
 	case 0:
 		return toks(g.pick(Numbers))
 	case 1:
